@@ -3,16 +3,48 @@ import CkcVerif.Model.Sort
 namespace Lemmas
 open CK
 
-theorem sortDesc_perm (l : List Nat) : (sortDesc l).Perm l :=
-  (List.reverse_perm _).trans (List.mergeSort_perm l _)
+theorem insertDesc_perm (x : Nat) (l : List Nat) : (insertDesc x l).Perm (x :: l) := by
+  induction l with
+  | nil => exact List.Perm.refl _
+  | cons y ys ih =>
+    unfold insertDesc
+    split
+    · exact List.Perm.refl _
+    · exact (List.Perm.cons y ih).trans (List.Perm.swap x y ys)
+
+theorem insertDesc_sorted (x : Nat) (l : List Nat) (h : l.Pairwise (fun a b => a ≥ b)) :
+    (insertDesc x l).Pairwise (fun a b => a ≥ b) := by
+  induction l with
+  | nil => simp [insertDesc]
+  | cons y ys ih =>
+    unfold insertDesc
+    have hp := List.pairwise_cons.mp h
+    split
+    · rename_i hge
+      refine List.pairwise_cons.mpr ⟨?_, h⟩
+      intro z hz
+      rcases List.mem_cons.mp hz with rfl | hz
+      · exact hge
+      · have := hp.1 z hz; omega
+    · rename_i hlt
+      refine List.pairwise_cons.mpr ⟨?_, ih hp.2⟩
+      intro z hz
+      have := (insertDesc_perm x ys).mem_iff.mp hz
+      rcases List.mem_cons.mp this with rfl | hz'
+      · omega
+      · exact hp.1 z hz'
+
+theorem sortDesc_perm (l : List Nat) : (sortDesc l).Perm l := by
+  induction l with
+  | nil => exact List.Perm.refl _
+  | cons x xs ih =>
+    show (insertDesc x (sortDesc xs)).Perm (x :: xs)
+    exact (insertDesc_perm x _).trans (List.Perm.cons x ih)
 
 theorem sortDesc_sorted (l : List Nat) : (sortDesc l).Pairwise (fun a b => a ≥ b) := by
-  unfold sortDesc
-  rw [List.pairwise_reverse]
-  have := List.pairwise_mergeSort (le := fun a b => decide (a ≤ b))
-      (by intro a b c; simp only [decide_eq_true_eq]; omega)
-      (by intro a b; simp only [Bool.or_eq_true, decide_eq_true_eq]; omega) l
-  exact this.imp (by intro a b h; simp only [decide_eq_true_eq] at h; exact h)
+  induction l with
+  | nil => exact List.Pairwise.nil
+  | cons x xs ih => exact insertDesc_sorted x _ ih
 
 theorem sorted_perm_unique {l₁ l₂ : List Nat} (p : l₁.Perm l₂)
     (h₁ : l₁.Pairwise (fun a b => a ≥ b)) (h₂ : l₂.Pairwise (fun a b => a ≥ b)) : l₁ = l₂ :=
